@@ -18,6 +18,8 @@ from `arm()`) by a fault:
   ('ackgarbled', bytes)        the given bytes arrive in place of the ACK frame (the response follows)
   ('empty',)                   well-formed response frame without any payload after the response code
   ('payload', n)               well-formed response frame whose payload (after the response code) is cut to n bytes
+  ('regval', pos, v)           ReadRegister: the value reported for the pos-th register of the command := v
+  ('overlong', n)              ReadRegister: n values more than registers were asked for
 
 Time is virtual: `VClock` is installed as the `time` attribute of the driver modules.
 Nothing here is imported by the Coq side; the statement being checked is about the real drivers
@@ -293,6 +295,26 @@ class Pn53xSim(HostSimBase):
                 self.fifo = bytearray(nxt)
                 self.commirq |= 0x30
 
+    def _register_fault(self, cmd, payload, fault, data):
+        """'regval' / 'overlong' faults rewrite the ReadRegister answer; returns (payload, remaining fault kind)"""
+        kind = fault[0]
+        if kind not in ('regval', 'overlong'):
+            return payload, kind
+        if cmd != 0x06 or payload is None:
+            self.fired = False
+            return payload, 'none'
+        off = 1 if self.chip == 'pn533' else 0
+        p = bytearray(payload)
+        if kind == 'regval':
+            if off + fault[1] >= len(p):
+                self.fired = False
+                return payload, 'none'
+            p[off + fault[1]] = fault[2]
+        else:
+            p += bytes([0xA5] * fault[1])
+        self.fault_payload, self.fault_cmd_data = bytes(p), bytes(data)
+        return bytes(p), 'none'
+
     # -- host commands -----------------------------------------------------
     def handle(self, cmd, data):
         chip = self.chip
@@ -358,6 +380,7 @@ class Pn53xSim(HostSimBase):
             raise ioerr(fault[1])
         payload = self.handle(cmd, bytes(data))
         self.payload_lens[idx] = len(payload) if payload is not None else 0
+        payload, kind = self._register_fault(cmd, payload, fault, data)
         q = []
         # acknowledge stage
         if kind == 'timeout' and fault[1] == 'ack':
@@ -446,6 +469,7 @@ class Acr122Sim(Pn53xSim):
             raise ioerr(fault[1])
         payload = self.handle(cmd, bytes(data))
         self.payload_lens[idx] = len(payload) if payload is not None else 0
+        payload, kind = self._register_fault(cmd, payload, fault, data)
         if kind == 'timeout' or payload is None:
             self.queue = []
         elif kind == 'ioerror':
